@@ -132,7 +132,7 @@ def supplied_families(rows, basis, rng, tier):
             r1 = sympy.Matrix(m + [[int(kk == k) for kk in FC.KEYS]]).rank()
             if r1 > r0:
                 canon = trial
-    fams = [("canonical", canon, 3), ("full-nonzero", nonzero, 1)]
+    fams = [("canonical", canon, 3), ("full-nonzero", nonzero, 1), ("canonical,one-parameter-zero-at-one-volume", canon, 3)]
     exch = []
     for k in canon:
         for k2 in nonzero:
@@ -160,12 +160,13 @@ def fill_obligations(chk, F, system, rows, tier, rng):
     for fam, supplied, nrows in supplied_families(rows, basis, rng, tier):
         name = "%s:fill[%s,%d rows]" % (system, fam, nrows)
         ctx = new_context()
-        t_rows = FC.symbolic_invariant(ctx, basis, nrows)
+        zero_at = (len(basis) - 1, 1) if "zero-at-one-volume" in fam else None
+        t_rows = FC.symbolic_invariant(ctx, basis, nrows, zero_at=zero_at)
         spell = {k: k.upper() for i, k in enumerate(supplied) if i % 3 == 1}
         order = list(supplied)
         rng.shuffle(order)
         df = FC.make_table(t_rows, order, spell=spell)
-        ex = X.Explorer(max_paths=8, name=name)
+        ex = X.Explorer(max_paths=64, name=name)
         ex.prefer = FC.no_drop_cut
         t0 = time.time()
         try:
@@ -179,17 +180,17 @@ def fill_obligations(chk, F, system, rows, tier, rng):
             if p.exception is not None:
                 ok = False
                 replay_fill(chk, F, system, basis, order, spell, nrows, rng, name,
-                            "fill raises %s: %s on a symmetry-consistent sufficient table" % (type(p.exception).__name__, p.exception))
+                            "fill raises %s: %s on a symmetry-consistent sufficient table" % (type(p.exception, zero_at=zero_at).__name__, p.exception), zero_at=zero_at)
                 break
             out = p.result
             cols = {c.lower(): c for c in out.columns}
             if len(cols) != len(out.columns):
                 ok = False
-                replay_fill(chk, F, system, basis, order, spell, nrows, rng, name, "duplicate columns differing only in letter case")
+                replay_fill(chk, F, system, basis, order, spell, nrows, rng, name, "duplicate columns differing only in letter case", zero_at=zero_at)
                 break
             if "v" not in cols or not numpy.array_equal(numpy.asarray(out[cols["v"]], dtype=float), numpy.asarray(df["V"], dtype=float)):
                 ok = False
-                replay_fill(chk, F, system, basis, order, spell, nrows, rng, name, "the non-modulus column V is altered")
+                replay_fill(chk, F, system, basis, order, spell, nrows, rng, name, "the non-modulus column V is altered", zero_at=zero_at)
                 break
             for k in FC.KEYS:
                 want = [t_rows[r][k] for r in range(nrows)]
@@ -199,25 +200,25 @@ def fill_obligations(chk, F, system, rows, tier, rng):
                     if ident_zero:
                         ok = False
                         replay_fill(chk, F, system, basis, order, spell, nrows, rng, name,
-                                    "vanishing component %s is not omitted" % k)
+                                    "vanishing component %s is not omitted" % k, zero_at=zero_at)
                         break
                     for r in range(nrows):
                         v, env = Z.prove_equal(got[r], want[r], name=name + ":" + k, use_assumptions=True, timeout_ms=10000)
                         if v != "unsat":
                             ok = False
                             replay_fill(chk, F, system, basis, order, spell, nrows, rng, name,
-                                        "component %s of the filled table differs from the invariant tensor" % k, env=env)
+                                        "component %s of the filled table differs from the invariant tensor" % k, env=env, zero_at=zero_at)
                             break
                     if not ok:
                         break
                     if k in supplied and cols[k] != spell.get(k, k):
                         ok = False
-                        replay_fill(chk, F, system, basis, order, spell, nrows, rng, name, "supplied column %s renamed" % k)
+                        replay_fill(chk, F, system, basis, order, spell, nrows, rng, name, "supplied column %s renamed" % k, zero_at=zero_at)
                         break
                 elif not ident_zero:
                     ok = False
                     replay_fill(chk, F, system, basis, order, spell, nrows, rng, name,
-                                "non-vanishing component %s is missing from the filled table" % k)
+                                "non-vanishing component %s is missing from the filled table" % k, zero_at=zero_at)
                     break
             if not ok:
                 break
@@ -230,12 +231,14 @@ def fill_obligations(chk, F, system, rows, tier, rng):
                                     and k in {c.lower() for c in paths[0].result.columns}} if ok else None))
 
 
-def replay_fill(chk, F, system, basis, order, spell, nrows, rng, name, what, env=None):
+def replay_fill(chk, F, system, basis, order, spell, nrows, rng, name, what, env=None, zero_at=None):
     """Concrete replay: a random (or model) invariant tensor, real numpy, real fill_cij."""
     for attempt in range(4):
         coeffs = [[rng.uniform(50, 400) * rng.choice((1, 1, -0.3)) for _ in basis] for _ in range(nrows)]
         if env and attempt == 0:
             coeffs = [[env.get("p%d_%d" % (k, r), coeffs[r][k]) for k in range(len(basis))] for r in range(nrows)]
+        if zero_at is not None:
+            coeffs[zero_at[1]][zero_at[0]] = 0.0
         t = [{k: sum(c * float(b[k]) for c, b in zip(coeffs[r], basis)) for k in FC.KEYS} for r in range(nrows)]
         data = {"V": [float(100 - 5 * i) for i in range(nrows)]}
         for k in order:
